@@ -340,6 +340,45 @@ fn query_layout(res: &mut Reservation, lay: &Layout, addrs: &[u64], lens: &[usiz
                 check_region(reg, lay, i, b.mmap_bases[i], &offs, lens, &ga, "mmap", judged);
             }
         }
+        // collections DERIVED from this one (remove a region, put it back): the answers must follow
+        // the derived layout, not the one the collection was derived from
+        if let Some(m) = &b.mmap {
+            for i in 0..lay.regions.len() {
+                let (s, l) = lay.regions[i];
+                match m.remove_region(GuestAddress(s as u64), l as u64) {
+                    Ok((m2, arc)) => {
+                        let mut regs2 = lay.regions.clone();
+                        regs2.remove(i);
+                        let lay2 = Layout::new(regs2);
+                        let mut bases2 = b.mmap_bases.clone();
+                        bases2.remove(i);
+                        let shape2 = format!("{}-minus{}", shape, if i + 1 == lay.regions.len() { "top" } else if i == 0 { "bottom" } else { "mid" });
+                        if lay2.regions.is_empty() {
+                            if m2.num_regions() != 0 {
+                                v("num_regions", "mmap-removed", &lay2, jobj! {"got" => m2.num_regions()});
+                            }
+                        } else {
+                            check_global(&m2, &lay2, "mmap-removed");
+                        }
+                        for &a in addrs {
+                            check_addr(&m2, &lay2, &bases2, a, lens, "mmap-removed", &shape2, judged);
+                        }
+                        match m2.insert_region(arc) {
+                            Ok(m3) => {
+                                check_global(&m3, lay, "mmap-reinserted");
+                                for &a in addrs {
+                                    check_addr(&m3, lay, &b.mmap_bases, a, lens, "mmap-reinserted", &shape, judged);
+                                }
+                            }
+                            Err(e) => v("insert_region/refused-own-region", "mmap-removed", lay, jobj! {"idx" => i, "err" => J::dbg(&e)}),
+                        }
+                        // the collection it was derived from is unchanged
+                        check_global(m, lay, "mmap");
+                    }
+                    Err(e) => v("remove_region/refused-exact-region", "mmap", lay, jobj! {"idx" => i, "err" => J::dbg(&e)}),
+                }
+            }
+        }
         if mock_ok {
             check_global(&b.mock, lay, "mock");
             for &a in addrs {
